@@ -93,3 +93,23 @@ Definition run_toy (nz na T : nat) (agrid egrid : list Qc) (Pi_ss : arr) (kappa 
   (map (fun b => (map (map ho) (b_V b), map (map ho) (b_a b), map (map ho) (b_c b))) back,
    map (fun dd => (map (map ho) (fst dd), map (map ho) (snd dd))) fwd,
    map (fun ac => (ho (fst ac), ho (snd ac))) agg).
+
+(** ---- forward pass and aggregation from OBSERVED individual paths: the Markov matrices, asset policies and outcomes of ANY household
+     (e.g. a shipped block whose backward step is not modelled) at every date, and the initial distribution ---- *)
+Definition observed_back (Pis pols cs : list arr) : list hback :=
+  map (fun p => {| b_V := []; b_a := snd (fst p); b_c := snd p; b_Pi := fst (fst p) |}) (combine (combine Pis pols) cs).
+Definition carried_in (nz na : nat) (agrid : list Qc) (Dbeg : arr) : Qc := hsum nz (fun z => hsum na (fun j => Qcmult (ent Dbeg z j) (nth j agrid h0))).
+Definition run_forward (nz na : nat) (agrid : list Qc) (Pis pols cs : list arr) (Dbeg0 : arr) :=
+  let back := observed_back Pis pols cs in
+  let fwd := forward_nonlinear hback arr (exogB nz na) (endogB nz na agrid) back Dbeg0 in
+  (map (fun dd => (map (map ho) (fst dd), map (map ho) (snd dd))) fwd,
+   map (fun bd => (ho (aggregate nz na (snd (snd bd)) (b_a (fst bd))), ho (aggregate nz na (snd (snd bd)) (b_c (fst bd))))) (combine back fwd),
+   map (fun dd => ho (carried_in nz na agrid (fst dd))) fwd).
+
+(** the same, one date at a time from the OBSERVED distributions (keeps the rationals small): for every date, the exogenous step applied to
+    the observed Dbeg_t, the policy lottery applied to the observed D_t, the aggregates under the observed D_t, the assets carried in by Dbeg_t *)
+Definition run_forward_steps (nz na : nat) (agrid : list Qc) (Pis pols cs Dbegs Ds : list arr) :=
+  map (fun p => let '(Pi, a, c, Dbeg, D) := p in
+                (map (map ho) (mk_forward nz na Pi Dbeg), map (map ho) (lottery_forward nz na agrid a D),
+                 ho (aggregate nz na D a), ho (aggregate nz na D c), ho (carried_in nz na agrid Dbeg), ho (carried_in nz na agrid (lottery_forward nz na agrid a D))))
+      (combine (combine (combine (combine Pis pols) cs) Dbegs) Ds).
